@@ -21,7 +21,7 @@ def mut(name, prop, fname, *pairs):
 
 # ---------------------------------------------------------------- C08
 mut("m08_2_make_netloc_key_without_encode", "C08", "yarl/_parse.py",
-    ('''@lru_cache  # match the same size as urlsplit
+    ('''@lru_cache(typed=True)  # match the same size as urlsplit
 def make_netloc(
     user: Union[str, None],
     password: Union[str, None],
@@ -43,7 +43,7 @@ def make_netloc(
     return _make_netloc(user, password, host, port)
 
 
-@lru_cache  # match the same size as urlsplit
+@lru_cache(typed=True)  # match the same size as urlsplit
 def _make_netloc(
     user: Union[str, None],
     password: Union[str, None],
@@ -136,7 +136,7 @@ mut("m08_7_origin_memo_shares_key_with_parent", "C08", "yarl/_url.py",
         return self._origin
 '''))
 mut("m08_1_encode_host_key_without_validate_host", "C08", "yarl/_url.py",
-    ('''@lru_cache(_DEFAULT_ENCODE_SIZE)
+    ('''@lru_cache(_DEFAULT_ENCODE_SIZE, typed=True)
 def _encode_host(host: str, validate_host: bool) -> str:
     """Encode host part of URL."""
 ''', '''_VALIDATE = [False]
@@ -147,14 +147,14 @@ def _encode_host(host: str, validate_host: bool) -> str:
     return _encode_host_cached(host)
 
 
-@lru_cache(_DEFAULT_ENCODE_SIZE)
+@lru_cache(_DEFAULT_ENCODE_SIZE, typed=True)
 def _encode_host_cached(host: str) -> str:
     """Encode host part of URL."""
     validate_host = _VALIDATE[0]
 '''),
     ("    _encode_host.cache_clear()", "    _encode_host_cached.cache_clear()"),
     ("    global _idna_decode, _idna_encode, _encode_host\n", "    global _idna_decode, _idna_encode, _encode_host_cached\n"),
-    ("    _encode_host = lru_cache(encode_host_size)(_encode_host.__wrapped__)", "    _encode_host_cached = lru_cache(encode_host_size)(_encode_host_cached.__wrapped__)"))
+    ("    _encode_host = lru_cache(encode_host_size, typed=True)(_encode_host.__wrapped__)", "    _encode_host_cached = lru_cache(encode_host_size, typed=True)(_encode_host_cached.__wrapped__)"))
 # ---------------------------------------------------------------- C09
 mut("m09_1_prefill_raw_path_without_slash_rule", "C09", "yarl/_url.py",
     ('''    cache["raw_path"] = "/" if not path and netloc else path
@@ -165,10 +165,8 @@ mut("m09_2_prefill_explicit_port_none_for_default", "C09", "yarl/_url.py",
         if password is None and username is None:''', '''        cache["explicit_port"] = None if port == DEFAULT_PORTS.get(scheme) else port
         if password is None and username is None:'''))
 mut("m09_3_prefill_raw_user_unrequoted", "C09", "yarl/_url.py",
-    ('''            cache["raw_user"] = raw_user
-            cache["raw_password"] = raw_password
-''', '''            cache["raw_user"] = username
-            cache["raw_password"] = raw_password
+    ('''            cache["raw_user"] = raw_user or None
+''', '''            cache["raw_user"] = username or None
 '''))
 mut("m09_4_getstate_drops_fragment", "C09", "yarl/_url.py",
     ('''        return (tuple.__new__(SplitResult, self._val),)
@@ -388,17 +386,17 @@ mut("m20_3_cache_netloc_provisional_raw_host", "C20", "yarl/_url.py",
         host = c["raw_host"]
 '''))
 mut("m20_4_cache_configure_unbinds_globals_first", "C20", "yarl/_url.py",
-    ('''    _encode_host = lru_cache(encode_host_size)(_encode_host.__wrapped__)
-    _idna_decode = lru_cache(idna_decode_size)(_idna_decode.__wrapped__)
-    _idna_encode = lru_cache(idna_encode_size)(_idna_encode.__wrapped__)
+    ('''    _encode_host = lru_cache(encode_host_size, typed=True)(_encode_host.__wrapped__)
+    _idna_decode = lru_cache(idna_decode_size, typed=True)(_idna_decode.__wrapped__)
+    _idna_encode = lru_cache(idna_encode_size, typed=True)(_idna_encode.__wrapped__)
 ''', '''    raw_encode_host = _encode_host.__wrapped__
     raw_idna_decode = _idna_decode.__wrapped__
     raw_idna_encode = _idna_encode.__wrapped__
     # drop the old wrappers first so that their caches are freed before new ones are built
     _encode_host = _idna_decode = _idna_encode = None
-    _encode_host = lru_cache(encode_host_size)(raw_encode_host)
-    _idna_decode = lru_cache(idna_decode_size)(raw_idna_decode)
-    _idna_encode = lru_cache(idna_encode_size)(raw_idna_encode)
+    _encode_host = lru_cache(encode_host_size, typed=True)(raw_encode_host)
+    _idna_decode = lru_cache(idna_decode_size, typed=True)(raw_idna_decode)
+    _idna_encode = lru_cache(idna_encode_size, typed=True)(raw_idna_encode)
 '''))
 mut("m20_5_hash_provisional_value", "C20", "yarl/_url.py",
     ('''            path = "/" if not self._path and self._netloc else self._path
